@@ -55,6 +55,16 @@ CORPUS = [
     dict(name="C01-offset-bytes-swapped", kind="break", props=["C01"], file="internal/lz4block/block.go",
          old="dst[di-2], dst[di-1] = byte(offset), byte(offset>>8)\n\n\t\t// Encode match length part 2.\n\t\tif mLen >= 0xF {\n\t\t\tfor mLen -= 0xF; mLen >= 0xFF && di < len(dst); mLen -= 0xFF {",
          new="dst[di-1], dst[di-2] = byte(offset), byte(offset>>8)\n\n\t\t// Encode match length part 2.\n\t\tif mLen >= 0xF {\n\t\t\tfor mLen -= 0xF; mLen >= 0xFF && di < len(dst); mLen -= 0xFF {"),
+    dict(name="C01-literal-length-run-one-short", kind="break", props=["C01"], file="internal/lz4block/block.go",
+         old="for ; l >= 0xFF && di < len(dst); l -= 0xFF {", new="for ; l > 0xFF && di < len(dst); l -= 0xFF {"),
+    dict(name="C01-literals-from-the-wrong-place", kind="break", props=["C01"], file="internal/lz4block/block.go",
+         old="copy(dst[di:di+lLen], src[anchor:anchor+lLen])\n\t\tdi += lLen + 2\n\t\tanchor = si\n\n\t\t// Encode offset.\n\t\tif di > len(dst) {", new="copy(dst[di:di+lLen], src[anchor+1:anchor+1+lLen])\n\t\tdi += lLen + 2\n\t\tanchor = si\n\n\t\t// Encode offset.\n\t\tif di > len(dst) {"),
+    dict(name="C01-forward-extension-counts-bits-not-bytes", kind="break", props=["C01"], file="internal/lz4block/block.go",
+         old="si += bits.TrailingZeros64(x) >> 3\n\t\t\t\tbreak\n\t\t\t}\n\t\t}\n\n\t\tmLen = si - mLen\n\t\tif di >= len(dst) {", new="si += bits.TrailingZeros64(x) >> 2\n\t\t\t\tbreak\n\t\t\t}\n\t\t}\n\n\t\tmLen = si - mLen\n\t\tif di >= len(dst) {"),
+    dict(name="C01-earlier-output-overwritten", kind="break", props=["C01"], file="internal/lz4block/block.go",
+         old="\t\tdi += lLen + 2\n\t\tanchor = si\n", new="\t\tdi += lLen + 2\n\t\tanchor = si\n\t\tif di > 40 {\n\t\t\tdst[3] = 0\n\t\t}\n"),
+    dict(name="C01-benign-rename-fast-compressor-locals", kind="benign", props=["C01", "C10"], file="internal/lz4block/block.go",
+         regex=r"\b(lLen)\b", new="litLen"),
     dict(name="C04-portable-dict-index-off-by-one", kind="break", props=["C04", "C12"], file="internal/lz4block/decode_other.go",
          old="fromDict := dict[uint(len(dict))+di-offset:]", new="fromDict := dict[uint(len(dict))+di-offset+1:]"),
     dict(name="C04-asm-interior-match-short", kind="break", props=["C04", "C12"], file="internal/lz4block/decode_amd64.s",
